@@ -33,6 +33,9 @@ CLAUSES = {
     "old.factory_not_given": {"C08", "C09"},
     "cap.before_preconditions": {"C08", "C01", "C16"},
     "msg.replaced_by_other_exception": {"C07", "C09", "C01", "C02"},
+    "pre.error_replaced": {"C01", "C16"},
+    "post.error_replaced": {"C02", "C16"},
+    "inv.error_replaced": {"C03", "C16"},
     "post.skipped_on_return": {"C02"},
     "post.evaluated_after_body_raise": {"C02"},
     "post.result_seen": {"C02"},
